@@ -72,7 +72,8 @@ var c12Keys = [][]string{
 	{strings.TrimRight(b64n(16), "=")}, {base64.URLEncoding.EncodeToString([]byte{0xfb, 0xff, 0xfe, 3, 4, 5, 6, 7, 8, 9, 10, 11, 12, 13, 14, 15})},
 	{b64n(16)[:10] + " " + b64n(16)[10:]}, {""}, nil, {b64n(16), b64n(16)}, {" " + b64n(16)}, {b64n(16)[:23] + "!"}, {"AAAAAAAAAAAAAAAAAAAAAA=A"},
 }
-var c12Proto = [][]string{nil, {"chat"}, {"chat, superchat"}, {"superchat,chat"}, {" superchat ,\tchat"}, {"superchat", "chat"}, {"other"}}
+var c12Proto = [][]string{nil, {"chat"}, {"chat, superchat"}, {"superchat,chat"}, {" superchat ,\tchat"}, {"superchat", "chat"}, {"other"},
+	{"chat/2"}, {"chat:v1, superchat/3"}, {"chat;q=1"}, {"chat superchat"}, {"chatx, xchat"}, {"\"chat\""}, {"chat@example"}}
 var c12Ext = [][]string{
 	nil, {"permessage-deflate"}, {"permessage-deflate; client_max_window_bits"}, {"permessage-deflate; server_no_context_takeover; client_no_context_takeover"},
 	{"permessage-deflate; client_max_window_bits=\"10\""}, {"foo, permessage-deflate"}, {"foo", "permessage-deflate"}, {"foo; a=1; b=\"c,d\", permessage-deflate; server_max_window_bits=10"},
